@@ -180,6 +180,53 @@ func c11Case(c *mc.Ctx, p *ref.Pkt, what string, public bool) {
 	if err != nil || n != 188 || !bytes.Equal(out, want) {
 		c.Rep.Report("encode-differs:"+fieldOf(what), det(fmt.Sprintf("writePacket(model): n=%d err=%v\n got  %x\n want %x", n, err, out, want)))
 	}
+	// redundant / leftover struct content must not change the encoding: a stale Length field, and one part
+	// whose flag is cleared while its value stays in the struct (the stuffing grows by the part's size)
+	if p.HasAF && p.AF != nil && !p.AF.Zero {
+		stale := fromRefPkt(p)
+		stale.AdaptationField.Length = (stale.AdaptationField.Length + 5) % 184
+		if o, n, err := astits.VerifWritePacket(stale); err != nil || n != 188 || !bytes.Equal(o, want) {
+			c.Rep.Report("encode-differs:stale-length-field", det(fmt.Sprintf("writePacket with a stale AdaptationField.Length: n=%d err=%v\n got  %x\n want %x", n, err, o, want)))
+		}
+		q := *p
+		af := *p.AF
+		q.AF = &af
+		lq := fromRefPkt(p)
+		a := lq.AdaptationField
+		removed := 0
+		switch {
+		case af.Ext != nil:
+			removed = af.Size()
+			af.Ext = nil
+			removed -= af.Size()
+			a.HasAdaptationExtensionField = false
+		case af.HasPrivate:
+			removed = 1 + len(af.Private)
+			af.HasPrivate, af.Private = false, nil
+			a.HasTransportPrivateData = false
+		case af.PCR != nil:
+			removed = 6
+			af.PCR = nil
+			a.HasPCR = false
+		case af.OPCR != nil:
+			removed = 6
+			af.OPCR = nil
+			a.HasOPCR = false
+		case af.HasSplice:
+			removed = 1
+			af.HasSplice = false
+			a.HasSplicingCountdown = false
+		}
+		if removed > 0 {
+			af.Stuffing += removed
+			a.StuffingLength += removed
+			w2 := q.Encode()
+			if o, n, err := astits.VerifWritePacket(lq); err != nil || n != 188 || !bytes.Equal(o, w2) {
+				c.Rep.Report("encode-differs:leftover-behind-cleared-flag", det(fmt.Sprintf("a part whose flag is cleared (value left in the struct) changes the written packet: n=%d err=%v\n got  %x\n want %x", n, err, o, w2)))
+			}
+			c.Ev.Class("leftover-behind-cleared-flag", 1)
+		}
+	}
 	// re-emit what was parsed
 	out2, n2, err2 := astits.VerifWritePacket(got)
 	if err2 != nil || n2 != 188 || !bytes.Equal(out2, want) {
